@@ -385,9 +385,20 @@ fn copy_sources(acc: &mut Acc) {
                     continue;
                 }
                 // (1) decode: the header a client sends (key URL-encoded, '/' kept; version id URL-encoded)
-                for leading_slash in [false, true] {
+                // five ways clients in the field URL-encode the same source: the key's segments escaped with '/' kept (with and
+                // without a leading slash), everything escaped incl. the separator (url.QueryEscape / encodeURIComponent / quote(safe="")
+                // of "bucket/key", with and without a leading slash), and every single byte escaped
+                let every_byte = |t: &str| t.bytes().map(|b| format!("%{b:02X}")).collect::<String>();
+                let spellings: [String; 5] = [
+                    format!("{bucket}/{}", uri_encode(key, false)),
+                    format!("/{bucket}/{}", uri_encode(key, false)),
+                    uri_encode(&format!("{bucket}/{key}"), true),
+                    uri_encode(&format!("/{bucket}/{key}"), true),
+                    format!("{}/{}", every_byte(bucket), every_byte(key)),
+                ];
+                for spelled in spellings {
                     acc.eval();
-                    let mut hdr = format!("{}{bucket}/{}", if leading_slash { "/" } else { "" }, uri_encode(key, false));
+                    let mut hdr = spelled;
                     if let Some(v) = version {
                         hdr.push_str(&format!("?versionId={}", uri_encode(v, true)));
                     }
@@ -492,7 +503,7 @@ pub fn run(ctx: &Ctx) -> (Acc, Report) {
     mimes(&mut acc);
     let rep = Report {
         level: "exploration",
-        rule: "timestamps: full product of boundary fields (9 years x 3 months x valid days of {1,28,29,30,31} x 3 hours x 2 minutes x 2 seconds x 3 millisecond values x 8 (thorough 12) UTC offsets) parsed from RFC 3339 and re-emitted in all 3 formats; ranges: all (first,last,suffix,length) over 0..16 (thorough 0..24) and 9 boundary values incl. 2^63-1, every string bytes= + <=6 (thorough 7) symbols over {0,1,9,-,',',' ',+,a}, prefix spellings and 2^63/2^64 boundaries; copy sources: 3 buckets x 22 keys x 5 version ids, as a client encodes them (with/without leading slash) and as the library encodes them; content types: 5x5x6 grammar product + 11 malformed. Oracles: proleptic-Gregorian arithmetic cross-checked per instant with aws-smithy-types, RFC 9110 single-range grammar and interval function, RFC 3986 percent codec. Distinct by text.".into(),
+        rule: "timestamps: full product of boundary fields (9 years x 3 months x valid days of {1,28,29,30,31} x 3 hours x 2 minutes x 2 seconds x 3 millisecond values x 8 (thorough 12) UTC offsets) parsed from RFC 3339 and re-emitted in all 3 formats; ranges: all (first,last,suffix,length) over 0..16 (thorough 0..24) and 9 boundary values incl. 2^63-1, every string bytes= + <=6 (thorough 7) symbols over {0,1,9,-,',',' ',+,a}, prefix spellings and 2^63/2^64 boundaries; copy sources: 3 buckets x 22 keys x 5 version ids, in 5 client spellings (segments escaped with '/' kept, everything escaped incl. the separator, each with/without leading slash, every byte escaped) and as the library encodes them; content types: 5x5x6 grammar product + 11 malformed. Oracles: proleptic-Gregorian arithmetic cross-checked per instant with aws-smithy-types, RFC 9110 single-range grammar and interval function, RFC 3986 percent codec. Distinct by text.".into(),
         exhaustive: true,
         extra: json!({}),
         assumptions: vec!["range strings with lenient list syntax (blanks, empty elements), a non-lower-case unit, or a suffix length >= 2^63 are recorded, not judged".into()],
